@@ -373,6 +373,50 @@ def _worker(args):
         return {"sub": subname, "shard": shard, "error": traceback.format_exc()}
 
 
+def _run_tasks(tasks, procs, tier):
+    """Run tasks in worker processes. A worker that dies (segfault, out of memory, abort inside XLA) must not hang the check:
+    concurrent.futures reports it as BrokenProcessPool; the tasks that were caught in the broken pool are re-run one by one in fresh
+    single-worker pools, so that collateral tasks still finish and the one that really crashes is reported as a harness error.
+    A global watchdog bounds the whole thing; what has not finished by then is a harness error (inconclusive, never a violation)."""
+    import concurrent.futures as cf
+    from concurrent.futures.process import BrokenProcessPool
+
+    budget = float(os.environ.get("VERIF_WATCHDOG_S", "2400" if tier == "quick" else "21600"))
+    deadline = time.time() + budget
+    mpctx = mp.get_context("spawn")
+    results = {}
+    retry = []
+    ex = cf.ProcessPoolExecutor(max_workers=procs, mp_context=mpctx, max_tasks_per_child=1)
+    try:
+        futs = {ex.submit(_worker, t): i for i, t in enumerate(tasks)}
+        for f, i in futs.items():
+            t = tasks[i]
+            try:
+                results[i] = f.result(timeout=max(1.0, deadline - time.time()))
+            except BrokenProcessPool:
+                retry.append(i)
+            except cf.TimeoutError:
+                results[i] = {"sub": t[2], "shard": t[5], "error": f"watchdog: sub-check did not finish within {budget:.0f} s (inconclusive, not a violation)"}
+            except Exception:
+                results[i] = {"sub": t[2], "shard": t[5], "error": traceback.format_exc()}
+    finally:
+        ex.shutdown(wait=False, cancel_futures=True)
+    for i in retry:
+        t = tasks[i]
+        ex1 = cf.ProcessPoolExecutor(max_workers=1, mp_context=mpctx)
+        try:
+            results[i] = ex1.submit(_worker, t).result(timeout=max(1.0, deadline - time.time()))
+        except BrokenProcessPool:
+            results[i] = {"sub": t[2], "shard": t[5], "error": "worker process died while running this sub-check (killed / out of memory / abort in native code); inconclusive, not a violation"}
+        except cf.TimeoutError:
+            results[i] = {"sub": t[2], "shard": t[5], "error": f"watchdog: sub-check did not finish within {budget:.0f} s (inconclusive, not a violation)"}
+        except Exception:
+            results[i] = {"sub": t[2], "shard": t[5], "error": traceback.format_exc()}
+        finally:
+            ex1.shutdown(wait=False, cancel_futures=True)
+    return [results[i] for i in range(len(tasks))]
+
+
 def run_property(modname: str, tier: str, seed: int, only: Optional[str] = None, procs: int = 16) -> int:
     import importlib
 
@@ -399,22 +443,7 @@ def run_property(modname: str, tier: str, seed: int, only: Optional[str] = None,
     if procs == 1:
         results = [_worker(t) for t in tasks]
     else:
-        mpctx = mp.get_context("spawn")
-        # global watchdog: a hung worker must not hang the check; whatever has not finished is reported as a harness error (exit 2)
-        budget = float(os.environ.get("VERIF_WATCHDOG_S", "2400" if tier == "quick" else "21600"))
-        pool = mpctx.Pool(procs, maxtasksperchild=1)
-        try:
-            asyncs = [pool.apply_async(_worker, (t,)) for t in tasks]
-            results = []
-            deadline = time.time() + budget
-            for t, a in zip(tasks, asyncs):
-                try:
-                    results.append(a.get(timeout=max(1.0, deadline - time.time())))
-                except mp.TimeoutError:
-                    results.append({"sub": t[2], "shard": t[5], "error": f"watchdog: sub-check did not finish within {budget:.0f} s (inconclusive, not a violation)"})
-        finally:
-            pool.terminate()
-            pool.join()
+        results = _run_tasks(tasks, procs, tier)
     return finish(mod, tier, seed, reg_results + results, time.time() - t0)
 
 
